@@ -1,152 +1,292 @@
 /*
- * C14, second sentence ("whatever structure results ...") - the all-fields-extreme family.
+ * C14 under AddressSanitizer (part c14asan of bin/checks.d/C14.py). The librfn sources are linked as objects of their
+ * own, built with -fsanitize=address like this file; only the public header is included here. Four families, each a
+ * complete enumeration, each input in an EXACTLY-SIZED heap block (malloc(n)), so that a read of a single byte past the
+ * declared length is an AddressSanitizer report wherever the block happens to end (malloc results are 16-byte aligned,
+ * so with the length the end of the buffer takes every alignment - the guard-page placement of the main part can only
+ * offer page-aligned ends, which an over-read by an aligned word load never crosses):
  *
- * The main part (c14_wavdecode.c) stays within <= 2 (3) deviating fields of a valid header.
- * The three helpers, however, combine several decoded fields in one expression (a division,
- * a formatted line), so a defect may need *every* numeric field at an unusual value at once.
- * This part therefore takes the FULL PRODUCT of a small extreme-value menu per numeric field
- * over three header shapes (plain 16-byte fmt chunk; fmt + fact; WAVE_FORMAT_EXTENSIBLE),
- * decodes each header with the real rf_wavheader_decode from an exactly-sized heap buffer and
- * runs validate / get_format / tostring on whatever structure results.
+ *  (P) helpers product ("whatever structure results ..."): the three helpers combine several decoded fields in one
+ *      expression (a division, a formatted line), so a defect may need EVERY numeric field at an unusual value at once:
+ *      FULL PRODUCT of an extreme-value menu per numeric field over three header shapes (plain 16-byte fmt chunk; fmt +
+ *      fact; WAVE_FORMAT_EXTENSIBLE), each header decoded by the real rf_wavheader_decode, then validate / get_format /
+ *      tostring on whatever structure results.
+ *  (D) dense small values: a table indexed by a channel count, a sample width or a frame size is met at SMALL values no
+ *      extreme-value menu contains: full product channels x block_align x bits_per_sample, each 0..32, x shape x format
+ *      tag x data size, same procedure.
+ *  (T) truncation sweep: every header of the wav_common.h corpus within <= 1 (thorough 2) deviating fields of the nine
+ *      templates, at EVERY truncation length t = 0..len+2, from a malloc(t) block; helpers on every distinct result.
+ *  (S) every byte string of 0..2 bytes from a malloc block of that size.
  *
- * Oracle: AddressSanitizer (the property's own observation point): this translation unit,
- * which #includes the librfn sources, is built with -fsanitize=address
- * -fsanitize-recover=address; __asan_on_error records every report (stack or heap overflow
- * inside the helpers, over-read of the input buffer in decode), signals are caught as in the
- * other parts, and the string returned by tostring must be a readable NUL-terminated heap
- * block (strlen + free under ASan).
+ * Oracle: AddressSanitizer (the property's own observation point; -fsanitize-recover=address, __asan_on_error records
+ * every report), the signals and the watchdog of vx.h (a call that does not return within one to two watchdog periods is an
+ * endless loop), and the string returned by tostring must be a readable NUL-terminated heap block (strlen + free under
+ * ASan). A family stops at its first violation (every further report would cost a screenful of ASan output or a watchdog
+ * period); the violation is in the result file before anything else is run.
  */
 #include "vx.h"
 #include <limits.h>
+#include <stdio_ext.h>
 
-#include "pack.c"
-#include "util.c"
-#include "string.c"
-#include "wavheader.c"
+#include <librfn/time.h>
+#include <librfn/wavheader.h>
 
-uint32_t time_now(void) { return 0; }
+uint32_t time_now(void) { return 0; }	/* referenced by util.c (ratelimit_check), never called here */
+
+#include "wav_common.h"
+
+#define C14H_WATCHDOG_S 4.0
 
 const char *__asan_default_options(void) { return "halt_on_error=0:detect_leaks=0:print_summary=0:handle_segv=0:handle_sigbus=0:handle_sigfpe=0:handle_abort=0:detect_stack_use_after_return=0"; }
 extern const char *__asan_get_report_description(void);
-static volatile int asan_errors;
-static char asan_kind[64];
+static volatile int c14h_asan_errors;
+static char c14h_asan_kind[64];
 void __asan_on_error(void)
 {
-	if (!asan_errors++) snprintf(asan_kind, sizeof(asan_kind), "%s", __asan_get_report_description());
+	if (!c14h_asan_errors++) snprintf(c14h_asan_kind, sizeof(c14h_asan_kind), "%s", __asan_get_report_description());
 }
 
-static const uint32_t m_af[] = { 1, 3, 0xfffe, 0, 2, 0xffff };
-static const uint32_t m_ch[] = { 2, 1, 0, 10, 100, 1000, 9999, 10000, 65535 };
+/* the statics of the library back to their start-up image before every case - byte by byte and uninstrumented, because the
+ * red zones AddressSanitizer lays between the library's globals are part of the image and memcpy is intercepted */
+__attribute__((no_sanitize_address, noinline))
+static void c14h_lib_reset(void)
+{
+	const char *s = vx_lib_pristine;
+	if (!s) return;
+	size_t dn = vx_lib_dsz(), bn = vx_lib_bsz();
+	volatile char *d = __start_vxlibdata;
+	for (size_t i = 0; i < dn; i++) if (d[i] != s[i]) d[i] = s[i];
+	d = __start_vxlibbss;
+	for (size_t i = 0; i < bn; i++) if (d[i] != s[dn + i]) d[i] = s[dn + i];
+}
+
+/* ------------------------------------------------------------------ menus of the product family
+ * 16-bit fields: the extremes, a few typical values, 0x100 / 0xff00 (low byte zero) and 0x7fff / 0x8000 (sign bit) */
+static const uint32_t m_af[] = { 1, 3, 0xfffe, 0, 2, 0xffff, 0x100, 0xff00, 0x7fff, 0x8000 };
+static const uint32_t m_ch[] = { 2, 1, 0, 10, 100, 1000, 9999, 10000, 65535, 0x100, 0xff00, 0x7fff, 0x8000 };
 static const uint32_t m_rate[] = { 44100, 0, 1, 999999999u, 1000000000u, 0x7fffffffu, 0x80000000u, 0xc4653600u, 0xffffffffu };
-static const uint32_t m_ba[] = { 4, 0, 1, 2, 65535 };
-static const uint32_t m_bits[] = { 16, 0, 8, 32, 65535 };
+static const uint32_t m_ba[] = { 4, 0, 1, 2, 65535, 0x100, 0xff00, 0x7fff, 0x8000 };
+static const uint32_t m_bits[] = { 16, 0, 8, 32, 65535, 0x100, 0xff00, 0x7fff, 0x8000 };
 static const uint32_t m_ds[] = { 0, 1, 176400, 999999999u, 0x7fffffffu, 0x80000000u, 0xc4653600u, 0xffffffffu };
 static const uint32_t m_sub[] = { 1, 3, 0xfffe, 0 };	/* extensible: sub-format tag in the GUID */
+/* dense family */
+#define C14H_DENSE 33					/* 0..32 */
+static const uint32_t d_af[] = { 1, 3, 0xfffe };	/* extensible shape: outer tag 0xfffe, this is the sub-format tag */
+static const uint32_t d_ds[] = { 0, 176400, 0xffffffffu };
 #define NEL(a) ((int)(sizeof(a) / sizeof((a)[0])))
 
-typedef struct { int shape; uint32_t af, ch, rate, ba, bits, ds, sub; } hcase;
-static void put16(uint8_t *p, uint32_t v) { p[0] = (uint8_t)v; p[1] = (uint8_t)(v >> 8); }
-static void put32(uint8_t *p, uint32_t v) { put16(p, v); put16(p + 2, v >> 16); }
+typedef struct { int shape; uint32_t af, ch, rate, ba, bits, ds, sub; } c14h_case;
 
-static int build(const hcase *c, uint8_t *h)
+static int c14h_build(const c14h_case *c, uint8_t *h)
 {
 	static const uint8_t guid_tail[14] = { 0x00, 0x00, 0x00, 0x00, 0x10, 0x00, 0x80, 0x00, 0x00, 0xaa, 0x00, 0x38, 0x9b, 0x71 };
 	int fmt = c->shape == 2 ? 40 : 16, n = 0;
 	memcpy(h, "RIFF", 4); n = 8;
 	memcpy(h + n, "WAVE", 4); n += 4;
-	memcpy(h + n, "fmt ", 4); put32(h + n + 4, (uint32_t)fmt); n += 8;
-	put16(h + n, c->af); put16(h + n + 2, c->ch); put32(h + n + 4, c->rate); put32(h + n + 8, c->rate * c->ba);
-	put16(h + n + 12, c->ba); put16(h + n + 14, c->bits); n += 16;
+	memcpy(h + n, "fmt ", 4); w_put32(h + n + 4, (uint32_t)fmt); n += 8;
+	w_put16(h + n, c->af); w_put16(h + n + 2, c->ch); w_put32(h + n + 4, c->rate); w_put32(h + n + 8, c->rate * c->ba);
+	w_put16(h + n + 12, c->ba); w_put16(h + n + 14, c->bits); n += 16;
 	if (c->shape == 2) {
-		put16(h + n, 22); put16(h + n + 2, c->bits); put32(h + n + 4, 3);
-		put16(h + n + 8, c->sub); memcpy(h + n + 10, guid_tail, 14); n += 24;
+		w_put16(h + n, 22); w_put16(h + n + 2, c->bits); w_put32(h + n + 4, 3);
+		w_put16(h + n + 8, c->sub); memcpy(h + n + 10, guid_tail, 14); n += 24;
 	}
-	if (c->shape == 1) { memcpy(h + n, "fact", 4); put32(h + n + 4, 4); put32(h + n + 8, c->ba ? c->ds / c->ba : 0); n += 12; }
-	memcpy(h + n, "data", 4); put32(h + n + 4, c->ds); n += 8;
-	put32(h + 4, (uint32_t)(n - 8) + c->ds);
+	if (c->shape == 1) { memcpy(h + n, "fact", 4); w_put32(h + n + 4, 4); w_put32(h + n + 8, c->ba ? c->ds / c->ba : 0); n += 12; }
+	memcpy(h + n, "data", 4); w_put32(h + n + 4, c->ds); n += 8;
+	w_put32(h + 4, (uint32_t)(n - 8) + c->ds);
 	return n;
 }
 
-static uint64_t n_cases, n_accepted, n_rejected, n_valid, n_helpers;
-static vx_set seen;
-static int stop;
+static uint64_t n_cases, n_accepted, n_rejected, n_valid, n_helpers, n_dense, n_sweep_cases, n_sweep_decodes, n_sweep_helpers, n_strings;
+static vx_set c14h_seen, c14h_seen_obs;
+static int c14h_stop;		/* 1: the current family met a violation; 2: deadline */
+static int c14h_replaying, c14h_sampled;
 
-static void report(const hcase *c, const char *fn, const char *what)
+/* ------------------------------------------------------------------ one decode + helpers, all under the oracle */
+static const char *c14h_fault;	/* what went wrong in the last c14h_run (NULL: nothing) */
+static const char *c14h_fault_fn;
+static char c14h_fault_buf[128];
+
+#define C14H_GUARDED(fn, stmt) do { \
+	c14h_asan_errors = 0; \
+	if (VX_TRY) { stmt; VX_END; if (c14h_asan_errors) { snprintf(c14h_fault_buf, sizeof(c14h_fault_buf), "AddressSanitizer: %s", c14h_asan_kind); c14h_fault = c14h_fault_buf; c14h_fault_fn = fn; goto out; } } \
+	else { VX_END; snprintf(c14h_fault_buf, sizeof(c14h_fault_buf), "%s", vx_fault_msg); c14h_fault = c14h_fault_buf; c14h_fault_fn = fn; goto out; } } while (0)
+
+typedef struct { int ret, val, fmt; size_t len; int helpers_run; } c14h_result;
+
+/* decode the n bytes at img from a malloc(n) block; helpers on the result when with_helpers (2: only on a structure not seen before) */
+static void c14h_run(const uint8_t *img, int n, int with_helpers, c14h_result *r)
 {
-	char sig[200], rp[200];
-	snprintf(sig, sizeof(sig), "helpers-product|%s|%s", fn, what);
-	snprintf(rp, sizeof(rp), "shape=%d\naf=%u\nch=%u\nrate=%u\nba=%u\nbits=%u\nds=%u\nsub=%u\n", c->shape, c->af, c->ch, c->rate, c->ba, c->bits, c->ds, c->sub);
-	vx_violation(sig, rp, "%s: %s on the structure decoded from a %s header with audio_format=%u channels=%u sample_rate=%u block_align=%u bits=%u data_size=%u sub_format=%u",
-		     fn, what, c->shape == 0 ? "plain" : c->shape == 1 ? "fmt+fact" : "extensible", c->af, c->ch, c->rate, c->ba, c->bits, c->ds, c->sub);
-	stop = 1;
-}
-
-#define GUARDED(fn, stmt) do { \
-	asan_errors = 0; \
-	if (VX_TRY) { stmt; VX_END; if (asan_errors) { char w[96]; snprintf(w, sizeof(w), "AddressSanitizer: %s", asan_kind); report(c, fn, w); return; } } \
-	else { VX_END; report(c, fn, vx_fault_msg); return; } } while (0)
-
-static void run_case(const hcase *c)
-{
-	uint8_t img[80];
-	int n = build(c, img);
-	uint8_t *h = malloc((size_t)n);		/* exactly sized: ASan traps a one-byte over-read */
+	uint8_t *h = malloc((size_t)n);			/* exactly sized: ASan traps a one-byte over-read */
 	rf_wavheader_t *wh = malloc(sizeof(*wh));	/* and a write past the structure */
 	volatile int ret = 0, val = 0, fmt = 0;
 	char *volatile s = NULL;
-	memcpy(h, img, (size_t)n);
+	volatile size_t len = 0;
+	if (!h || !wh) _exit(3);
+	if (n) memcpy(h, img, (size_t)n);
 	memset(wh, 0xa5, sizeof(*wh));
-	n_cases++;
-	GUARDED("rf_wavheader_decode", ret = rf_wavheader_decode(h, (unsigned)n, wh));
-	if (ret == n) n_accepted++; else n_rejected++;
-	GUARDED("rf_wavheader_validate", val = rf_wavheader_validate(wh));
-	if (ret == n && val == 0) n_valid++;
-	GUARDED("rf_wavheader_get_format", fmt = (int)rf_wavheader_get_format(wh));
-	GUARDED("rf_wavheader_tostring", s = rf_wavheader_tostring(wh));
-	n_helpers += 3;
-	size_t len = 0;
-	if (s) GUARDED("rf_wavheader_tostring (result)", len = strlen(s); free(s));
-	vx_hasher hh; vx_h_init(&hh); vx_h_u64(&hh, (uint64_t)(ret == n) | (uint64_t)(val == 0) << 1 | (uint64_t)fmt << 2 | (uint64_t)len << 8 | (uint64_t)c->shape << 20);
-	vx_set_add(&seen, vx_h_done(&hh));
+	memset(r, 0, sizeof(*r));
+	c14h_fault = NULL; c14h_fault_fn = NULL;
+	c14h_lib_reset();
+	C14H_GUARDED("rf_wavheader_decode", ret = rf_wavheader_decode(h, (unsigned)n, wh));
+	r->ret = ret;
+	if (with_helpers == 2) {
+		vx_hasher hh; vx_h_init(&hh); vx_h_bytes(&hh, wh, sizeof(*wh));
+		if (!c14h_replaying && !vx_set_add(&c14h_seen_obs, vx_h_done(&hh))) with_helpers = 0;
+	}
+	if (with_helpers) {
+		r->helpers_run = 1;
+		C14H_GUARDED("rf_wavheader_validate", val = rf_wavheader_validate(wh));
+		C14H_GUARDED("rf_wavheader_get_format", fmt = (int)rf_wavheader_get_format(wh));
+		C14H_GUARDED("rf_wavheader_tostring", s = rf_wavheader_tostring(wh));
+		if (s) C14H_GUARDED("rf_wavheader_tostring (result)", len = strlen(s); free(s); s = NULL);
+		r->val = val; r->fmt = fmt; r->len = len;
+	}
+out:
 	free(h); free(wh);
 }
+
+/* ------------------------------------------------------------------ families P and D */
+static void c14h_report_fields(const c14h_case *c, const char *family)
+{
+	char sig[300], rp[200];
+	snprintf(sig, sizeof(sig), "%s|%s|%s", family, c14h_fault_fn, c14h_fault);
+	snprintf(rp, sizeof(rp), "shape=%d\naf=%u\nch=%u\nrate=%u\nba=%u\nbits=%u\nds=%u\nsub=%u\n", c->shape, c->af, c->ch, c->rate, c->ba, c->bits, c->ds, c->sub);
+	vx_violation(sig, rp, "%s: %s on the structure decoded from a %s header with audio_format=%u channels=%u sample_rate=%u block_align=%u bits=%u data_size=%u sub_format=%u",
+		     c14h_fault_fn, c14h_fault, c->shape == 0 ? "plain" : c->shape == 1 ? "fmt+fact" : "extensible", c->af, c->ch, c->rate, c->ba, c->bits, c->ds, c->sub);
+	c14h_stop = 1;
+}
+
+static void c14h_field_case(const c14h_case *c, const char *family)
+{
+	uint8_t img[W_BUFMAX];
+	c14h_result r;
+	int n = c14h_build(c, img);
+	c14h_run(img, n, 1, &r);
+	/* a violation is always reported under the name of the product family: the replay file holds nothing but the field
+	 * values, so a case replays the same way whichever family produced it */
+	if (c14h_fault) { c14h_report_fields(c, "helpers-product"); return; }
+	n_cases++;
+	if (r.ret == n) n_accepted++; else n_rejected++;
+	if (r.ret == n && r.val == 0) n_valid++;
+	n_helpers += 3;
+	vx_hasher hh; vx_h_init(&hh);
+	vx_h_u64(&hh, (uint64_t)(r.ret == n) | (uint64_t)(r.val == 0) << 1 | (uint64_t)(uint32_t)r.fmt << 2 | (uint64_t)r.len << 8 | (uint64_t)c->shape << 20);
+	vx_set_add(&c14h_seen, vx_h_done(&hh));
+	if (!c14h_replaying && !c14h_sampled && vx_args.worker % 3 == (family[8] == 'd' ? 1 : 0) && (c14h_sampled = 1))
+		vx_sample("%s: %s header audio_format=%u channels=%u sample_rate=%u block_align=%u bits=%u data_size=%u sub_format=%u from malloc(%d): decode = %d, validate = %d, get_format = %d, tostring gives %zu characters",
+			  family, c->shape == 0 ? "plain" : c->shape == 1 ? "fmt+fact" : "extensible", c->af, c->ch, c->rate, c->ba, c->bits, c->ds, c->sub, n, r.ret, r.val, r.fmt, r.len);
+}
+
+/* ------------------------------------------------------------------ families T and S */
+static void c14h_bytes_case(const w_case *c)
+{
+	c14h_result r;
+	if (c->tmpl >= 0) n_sweep_cases++; else n_strings++;
+	for (int t = (c->tdup + 1 > c->tmin ? c->tdup + 1 : c->tmin); t <= c->n && !c14h_stop; t++) {
+		c14h_run(c->buf, t, 2, &r);
+		n_sweep_decodes++;
+		if (r.helpers_run) n_sweep_helpers += 3;
+		if (c14h_fault) {
+			char sig[500]; char *rp = w_case_replay(c);
+			snprintf(sig, sizeof(sig), "asan-truncation-sweep|%s|%s|%s|sz=%d", c14h_fault_fn, c14h_fault, c->desc, t);
+			vx_violation(sig, rp, "%s: %s when the first %d bytes of %s lie in a heap block of exactly %d bytes", c14h_fault_fn, c14h_fault, t, c->desc, t);
+			free(rp);
+			c14h_stop = 1;
+			return;
+		}
+		if (!c14h_replaying && !c14h_sampled && vx_args.worker % 3 == 2 && c->tmpl >= 0 && t == c->n && (c14h_sampled = 1))
+			vx_sample("truncation sweep under AddressSanitizer: %s, every length %d..%d from a malloc block of that size; at %d bytes decode = %d", c->desc,
+				  c->tdup + 1 > c->tmin ? c->tdup + 1 : c->tmin, c->n, t, r.ret);
+	}
+	if (vx_deadline_passed()) c14h_stop = 2;
+}
+/* the enumerators of wav_common.h stop on w_stop */
+static void c14h_bytes_case_cb(const w_case *c) { if (c14h_stop) { w_stop = 1; return; } c14h_bytes_case(c); if (c14h_stop) w_stop = 1; }
 
 int main(int argc, char **argv)
 {
 	vx_init(argc, argv);
 	vx_install_handlers();
-	vx_set_init(&seen, 12);
+	vx_watchdog(C14H_WATCHDOG_S);
+	__fsetlocking(stdout, FSETLOCKING_BYCALLER); __fsetlocking(stderr, FSETLOCKING_BYCALLER);
+	vx_set_init(&c14h_seen, 12); vx_set_init(&c14h_seen_obs, 16);
+	w_setup_templates();
 	char *rp = vx_read_replay();
 	if (rp) {
-		hcase c;
-#define F(k) (uint32_t)strtoul(vx_replay_field(rp, k) ? vx_replay_field(rp, k) : "0", NULL, 10)
-		c.shape = (int)F("shape"); c.af = F("af"); c.ch = F("ch"); c.rate = F("rate"); c.ba = F("ba"); c.bits = F("bits"); c.ds = F("ds"); c.sub = F("sub");
+		c14h_replaying = 1;
+		if (vx_replay_field(rp, "kind")) {
+			w_case wc;
+			if (w_case_parse(rp, &wc)) { fprintf(stderr, "c14_helpers: malformed replay file\n"); return 3; }
+			c14h_bytes_case(&wc);
+			vx_finish();
+			return 0;
+		}
+		c14h_case c;
+#define C14H_F(k) (uint32_t)strtoul(vx_replay_field(rp, k) ? vx_replay_field(rp, k) : "0", NULL, 10)
+		c.shape = (int)C14H_F("shape"); c.af = C14H_F("af"); c.ch = C14H_F("ch"); c.rate = C14H_F("rate"); c.ba = C14H_F("ba"); c.bits = C14H_F("bits"); c.ds = C14H_F("ds"); c.sub = C14H_F("sub");
 		if (c.shape < 0 || c.shape > 2) { fprintf(stderr, "c14_helpers: malformed replay file\n"); return 3; }
-		run_case(&c);
+		c14h_field_case(&c, "helpers-product");
 		vx_finish();
 		return 0;
 	}
+	int deadline = 0, stopped = 0;
+
+	/* (P) */
 	uint64_t part = 0;
-	for (int shape = 0; shape < 3 && !stop; shape++)
-	for (int a = 0; a < NEL(m_af) && !stop; a++)
-	for (int b = 0; b < NEL(m_ch) && !stop; b++, part++) {
+	for (int shape = 0; shape < 3 && !c14h_stop; shape++)
+	for (int a = 0; a < NEL(m_af) && !c14h_stop; a++)
+	for (int b = 0; b < NEL(m_ch) && !c14h_stop; b++, part++) {
 		if (!vx_mine(part)) continue;
-		for (int r = 0; r < NEL(m_rate) && !stop; r++)
-		for (int l = 0; l < NEL(m_ba) && !stop; l++)
-		for (int w = 0; w < NEL(m_bits) && !stop; w++)
-		for (int d = 0; d < NEL(m_ds) && !stop; d++)
-		for (int g = 0; g < (shape == 2 ? NEL(m_sub) : 1) && !stop; g++) {
-			hcase c = { shape, m_af[a], m_ch[b], m_rate[r], m_ba[l], m_bits[w], m_ds[d], m_sub[g] };
-			if (shape == 2 && a > 2) continue;	/* extensible shape: tags 1, 3 and 0xfffe in the outer field only */
-			run_case(&c);
-			if (vx_deadline_passed()) { stop = 2; }
+		if (shape == 2 && a > 2) continue;	/* extensible shape: tags 1, 3 and 0xfffe in the outer field only */
+		for (int r = 0; r < NEL(m_rate) && !c14h_stop; r++)
+		for (int l = 0; l < NEL(m_ba) && !c14h_stop; l++)
+		for (int w = 0; w < NEL(m_bits) && !c14h_stop; w++)
+		for (int d = 0; d < NEL(m_ds) && !c14h_stop; d++)
+		for (int g = 0; g < (shape == 2 ? NEL(m_sub) : 1) && !c14h_stop; g++) {
+			c14h_case c = { shape, m_af[a], m_ch[b], m_rate[r], m_ba[l], m_bits[w], m_ds[d], m_sub[g] };
+			c14h_field_case(&c, "helpers-product");
+			if ((n_cases & 255) == 0 && vx_deadline_passed()) c14h_stop = 2;
 		}
 	}
-	vx_count("helpers_product_headers", n_cases); vx_count("helpers_product_accepted", n_accepted); vx_count("helpers_product_not_accepted", n_rejected);
-	vx_count("helpers_product_accepted_and_valid", n_valid); vx_count("helpers_product_helper_calls", n_helpers);
-	vx_count("helpers_product_distinct_outcomes", seen.n);
-	vx_and("exhaustive", stop != 2);
-	if (stop == 2) vx_note("helpers product family: deadline reached before the product was enumerated");
+	if (c14h_stop == 2) deadline = 1;
+	uint64_t n_product = n_cases;
+	if (c14h_stop == 1) { stopped = 1; vx_note("helpers product family: stopped at the first violation"); }
+
+	/* (D) */
+	c14h_stop = deadline ? 2 : 0; part = 0;
+	for (int shape = 0; shape < 3 && !c14h_stop; shape++)
+	for (int b = 0; b < C14H_DENSE && !c14h_stop; b++, part++) {
+		if (!vx_mine(part)) continue;
+		for (int a = 0; a < NEL(d_af) && !c14h_stop; a++)
+		for (int l = 0; l < C14H_DENSE && !c14h_stop; l++)
+		for (int w = 0; w < C14H_DENSE && !c14h_stop; w++)
+		for (int d = 0; d < NEL(d_ds) && !c14h_stop; d++) {
+			c14h_case c = { shape, shape == 2 ? 0xfffe : d_af[a], (uint32_t)b, 44100, (uint32_t)l, (uint32_t)w, d_ds[d], shape == 2 ? d_af[a] : 0 };
+			c14h_field_case(&c, "helpers-dense");
+			n_dense++;
+			if ((n_dense & 255) == 0 && vx_deadline_passed()) c14h_stop = 2;
+		}
+	}
+	if (c14h_stop == 2) deadline = 1;
+	if (c14h_stop == 1) { stopped = 1; vx_note("dense small-value family: stopped at the first violation"); }
+
+	/* (S) and (T) */
+	c14h_stop = deadline ? 2 : 0; w_stop = c14h_stop != 0;
+	int sweep_dev = vx_thorough() ? 2 : 1, done_dev = -1;
+	for (int l = 0; l <= 2 && !w_stop; l++) w_enum_strings(l, c14h_bytes_case_cb, 1);
+	for (int d = 0; d <= sweep_dev && !w_stop; d++) { w_enum_headers(d, c14h_bytes_case_cb, 1); if (!w_stop) done_dev = d; }
+	if (c14h_stop == 2 || (w_stop && !c14h_stop)) deadline = 1;
+	if (c14h_stop == 1) { stopped = 1; vx_note("truncation sweep under AddressSanitizer: stopped at the first violation"); }
+
+	vx_count("helpers_product_headers", n_product); vx_count("helpers_dense_headers", n_dense);
+	vx_count("helpers_families_accepted", n_accepted); vx_count("helpers_families_not_accepted", n_rejected);
+	vx_count("helpers_families_accepted_and_valid", n_valid); vx_count("helpers_families_helper_calls", n_helpers);
+	vx_count("helpers_families_distinct_outcomes", c14h_seen.n);
+	vx_count("asan_sweep_header_cases", n_sweep_cases); vx_count("asan_sweep_byte_strings", n_strings);
+	vx_count("asan_sweep_decodes_from_exactly_sized_heap_blocks", n_sweep_decodes); vx_count("asan_sweep_helper_calls", n_sweep_helpers);
+	vx_min("asan_sweep_deviation_bound_completed", (uint64_t)(done_dev < 0 ? 0 : done_dev));
+	vx_and("exhaustive", !deadline && !stopped);
+	if (deadline) vx_note("AddressSanitizer part: deadline reached before the families were enumerated");
 	vx_finish();
 	return 0;
 }
